@@ -26,9 +26,14 @@ def run_check(tier, seed, replay=None):
     tr = record_stream_traces(wd, tier, seed + 3, extra=gen_hex(wd, gen))
     for kind, x, case in validate_stream_traces(c, wd, tr):
         ev = x["event"]
-        if kind in ("mirror", "predictor-state-differs", "end", "panic", "pending"):
+        if kind in ("mirror", "predictor-state-differs", "end", "panic"):
             c.violation("stream:" + kind, "encode and decode side are not mirror images (%s) at %s [%s]" % (
                 kind, json.dumps(ev)[:300], x["reset"].get("label")), {"kind": "deflate-hex", "hex": case.get("hex"), "event": ev})
+        elif kind == "pending":
+            # both sides carry a deferred match over a block start, in step: the reconstruction is still exact (C02
+            # holds); what changed is the meaning of stored corrections, which is C04's business
+            c.defer_tool_error("both sides keep a deferred match across a block start (%s): the stored format differs from "
+                               "Predict.tla / Trace_Stream; the specification needs attention" % x["reset"].get("label"))
         elif kind == "header":
             c.note("header deviates from Params.tla on %s (C08's business)" % x["reset"].get("label"))
         else:
